@@ -47,8 +47,8 @@ RULE = ('Hypothesis-generated server dialogues (1-8 steps) x login options (auto
         'the second phase, or a banner containing prompt-like characters, or a non-sh flavour.  Distinct by hash of the case.')
 ASSUMPTIONS = [
     'banner text never matches the password regex (a MOTD containing "password:" is a documented hazard, not generated)',
-    'a canonical login that fails to synchronise under the scaled-down sync_multiplier (0.4) is repeated with the '
-    'default multiplier before it counts',
+    'a canonical login that fails under the scaled-down timeouts (1.5 s, sync_multiplier 0.4) is repeated once with the '
+    'default multiplier and 8 s timeouts before it counts',
     'timeouts are scaled through public arguments; a harness subclass maps the hard-coded 10 s of set_unique_prompt to 0.4 s',
     'the dialogue class "no shell is ever reached while both sync_original_prompt and auto_prompt_reset are off" is '
     'excluded from random generation and probed deterministically (open known finding)',
@@ -191,7 +191,7 @@ def check_sent(events, where):
         raise Violation('password-sent-twice', '%s: login() sent the password %d times' % (where, n_pw))
 
 
-def check_case(case, col=None, sync_multiplier=0.4):
+def check_case(case, col=None, sync_multiplier=0.4, T=1.5):
     steps = case['steps']
     o = case['opts']
     tmp = tempfile.mkdtemp(prefix='c17_')
@@ -199,7 +199,7 @@ def check_case(case, col=None, sync_multiplier=0.4):
     script = os.path.join(tmp, 'script.json')
     with open(script, 'w') as f:
         json.dump({'steps': steps, 'record': record}, f)
-    kw = {'timeout': 1.5}
+    kw = {'timeout': T}
     if case['text_mode']:
         kw['encoding'] = 'utf-8'
     s = FastPxssh(options=dict(case['options']), **kw)
@@ -213,7 +213,7 @@ def check_case(case, col=None, sync_multiplier=0.4):
     try:
         try:
             with guard('login()', allow=(ExceptionPexpect,)):
-                ok = s.login('h', 'user', PASSWORD, login_timeout=1.5, sync_multiplier=sync_multiplier,
+                ok = s.login('h', 'user', PASSWORD, login_timeout=T, sync_multiplier=sync_multiplier,
                              cmd='%s -S -E %s %s' % (PY, FAKE, script), **o)
         except ExceptionPexpect as e:
             exc = e
@@ -248,7 +248,7 @@ def check_case(case, col=None, sync_multiplier=0.4):
                 raise Violation('ssh-argv', '%s: -p passed although no port was given (%r)' % (where, a))
         # (3) time bound: every wait is one of the configured timeouts; the longest legitimate chain is
         #     login_timeout + 3 expects + sync (12 x 3 x multiplier) + 3 x prompt-set waits
-        bound = 1.5 + 3 * 1.5 + 4 * 3.0 * sync_multiplier + 3 * 0.4 + 5.0
+        bound = T + 3 * T + 4 * 3.0 * sync_multiplier + 3 * 0.4 + 5.0
         if el > bound:
             raise Violation('login-too-slow', '%s: login() took %.1f s, the configured timeouts add up to %.1f s' % (where, el, bound - 5.0))
         if exc is None:
@@ -279,14 +279,14 @@ def check_case(case, col=None, sync_multiplier=0.4):
                 if r is not False:
                     raise Violation('prompt-without-prompt', '%s: prompt() returned %r although the shell printed no further prompt' % (where, r))
         else:
-            if case['kind'] == 'canonical' and 'synchronize' in str(exc) and sync_multiplier < 1.0:
-                # pxssh's prompt synchronisation is a timing heuristic that we have scaled down: before calling
-                # this a failure, repeat the dialogue with the default multiplier
+            if case['kind'] == 'canonical' and sync_multiplier < 1.0:
+                # pxssh's prompt synchronisation is a timing heuristic and all timeouts here are scaled down: before
+                # calling this a failure, repeat the dialogue with the default multiplier and generous timeouts
                 if col is not None:
                     col.count('canonical_retries_with_default_sync_multiplier')
                 s.close(force=True)
                 shutil.rmtree(tmp, ignore_errors=True)
-                return check_case(case, col, sync_multiplier=1.0)
+                return check_case(case, col, sync_multiplier=1.0, T=8.0)
             if case['kind'] == 'canonical':
                 raise Violation('canonical-login-failed', '%s: login() raised %s: %s' % (where, type(exc).__name__, str(exc)[:150]))
         if case['kind'] == 'canonical' and exc is None:
